@@ -12,6 +12,7 @@ CONSTANTS
   MaxStall = 1
   RotateFollows = TRUE
   WholeBatches = TRUE
+  PollRereads = TRUE
 INVARIANTS AppliedIsPrefix NoSplitBatch PWriteNeverWaits
 PROPERTIES PWriteReturns StalledIsDropped StalledStaysOut
 CHECK_DEADLOCK FALSE
